@@ -612,12 +612,8 @@ fn gen_element(rng: &mut Rng, kind: &str, name: &str, ctx: &mut Ctx) -> String {
         _ => unreachable!("kind {kind}"),
     };
     rng.shuffle(&mut opt);
-    // No `//` comments inside RECORD_LAYOUT: its children are position restricted, the writer reorders them by
-    // position, and a line comment that is then followed by a child read from the same line swallows that child
-    // (observed: "/begin RECORD_LAYOUT r AXIS_PTS_X 2 SWORD INDEX_INCR DIRECT\n // c\n FNC_VALUES 1 UBYTE ROW_DIR
-    // DIRECT /end RECORD_LAYOUT" is written as "... FNC_VALUES ...\n // c AXIS_PTS_X ..." and loads without
-    // AXIS_PTS_X). That is a defect of write_to_string alone (round trip, not C14), so it is kept out of here.
-    let line_ok = kind != "RECORD_LAYOUT";
+    // `//` comments inside RECORD_LAYOUT (reordered child written behind the line comment, C01-4): repaired in /repo 6bcb276: generated and checked again
+    let line_ok = true;
     let mut s = format!("/begin {kind} {head}");
     for o in opt {
         if ctx.inner_comments && rng.chance(1, 6) {
